@@ -588,6 +588,82 @@ def r13_strip_macro_rules(body):
     return _apply(s, res), log
 
 
+def ptr_model(body, arr, elem, names):
+    """R17: raw pointers into ONE array, modelled as element indices.
+
+    Applies to a body in which every raw pointer is derived from `<arr>.as_mut_ptr()` by `.add(n)` and is only
+    dereferenced as `(*p)`, compared with another such pointer, or copied.  Rewrite:
+        <arr>.as_mut_ptr()          ->  0usize
+        let mut p: *mut <elem>;     ->  let mut p: usize;
+        p.add(n)                    ->  verif_ptr_add(p, n, <arr>.len())   (requires p + n <= len: the safety condition
+                                                                            of <*mut T>::add, in bounds or one past the end)
+        (*p)                        ->  <arr>[p]                           (Verus' index obligation p < len: the
+                                                                            dereference must be inside the array)
+    Pointer comparisons (==, >=, ...) become index comparisons (same allocation, so they agree).
+    Everything else that could produce or use a pointer is REFUSED (RuleError => the unit is undecided), so the model
+    cannot silently cover an operation it does not describe.  Not modelled (TRUSTED ptr_index_model): the aliasing
+    discipline of the Rust abstract machine (that no reference to <arr> is created while the raw pointers are live);
+    the body is checked not to name <arr> anywhere else."""
+    log = []
+    s = body
+    pn = '|'.join(re.escape(n) for n in names)
+    arr_rx = re.escape(arr).replace(r'\.', r'\s*\.\s*')
+    sites = list(_code_find(s, re.compile(arr_rx + r'\s*\.\s*as_mut_ptr\s*\(\s*\)')))
+    if not sites:
+        raise RuleError('R17: no `%s.as_mut_ptr()` in the body' % arr)
+    others = [m for m in _code_find(s, re.compile(arr_rx + r'\b')) if not any(m.start() == t.start() for t in sites)]
+    if others:
+        raise RuleError('R17: the body names %s outside of `.as_mut_ptr()` (%d places): raw pointers and references to the '
+                        'same array would be mixed' % (arr, len(others)))
+    res = [(m.start(), m.end(), '0usize') for m in sites]
+    s = _apply(s, res)
+    log.append('R17: %s.as_mut_ptr() -> index 0 (x%d); pointers %s are element indices into %s' % (arr, len(sites), ' '.join(names), arr))
+    s, c = re.subn(r':\s*\*\s*mut\s+' + re.escape(elem) + r'\b', ': usize', s)
+    log.append('R17: `*mut %s` -> usize x%d' % (elem, c))
+    # p.add(n)
+    cnt = 0
+    while True:
+        ms = list(_code_find(s, re.compile(r'\b(%s)\s*\.\s*add\s*\(' % pn)))
+        if not ms:
+            break
+        m = ms[0]
+        po = m.end() - 1
+        pc = match_delim(s, po)
+        s = s[:m.start()] + 'verif_ptr_add(%s, %s, %s.len())' % (m.group(1), s[po + 1:pc].strip(), arr) + s[pc + 1:]
+        cnt += 1
+    log.append('R17: p.add(n) -> verif_ptr_add(p, n, %s.len()) x%d' % (arr, cnt))
+    s, c = re.subn(r'\(\s*\*\s*(%s)\s*\)' % pn, lambda m: '%s[%s]' % (arr, m.group(1)), s)
+    log.append('R17: (*p) -> %s[p] x%d' % (arr, c))
+    # refusals
+    for rx, what in ((r'\*\s*(?:mut|const)\b', 'a raw-pointer type'), (r'\bas_(?:mut_)?ptr\b', 'as_ptr/as_mut_ptr'),
+                     (r'\b(?:offset|wrapping_add|wrapping_sub|wrapping_offset|offset_from|byte_add|cast|read|write|read_volatile|'
+                      r'write_volatile|copy_to|copy_from|swap|replace|as_ref|as_mut|add|sub)\s*\(', None),
+                     (r'\b(?:null_mut|null|addr_of_mut|addr_of|transmute|from_raw_parts(?:_mut)?|NonNull)\b', 'a pointer constructor'),
+                     (r'&\s*raw\b', 'a raw borrow')):
+        for m in _code_find(s, re.compile(rx)):
+            if what is None:
+                # a method call: only refused when the receiver is one of the pointers
+                pre = s[:m.start()].rstrip()
+                if not (pre.endswith('.') and re.search(r'\b(%s)\s*\.$' % pn, pre)):
+                    continue
+                raise RuleError('R17: unmodelled pointer method `%s` on %s' % (m.group(0), re.search(r'\b(%s)\s*\.$' % pn, pre).group(1)))
+            raise RuleError('R17: the body still contains %s (`%s`) after the rewrite' % (what, s[m.start():m.start() + 30].split('\n')[0]))
+    for m in _code_find(s, re.compile(r'\*\s*(%s)\b' % pn)):
+        pre = s[:m.start()].rstrip()
+        if pre and (pre[-1].isalnum() or pre[-1] in '_)]'):
+            raise RuleError('R17: a pointer is used as a factor of a multiplication')
+        raise RuleError('R17: dereference `%s` not of the form (*p)' % norm_ws(m.group(0)))
+    # every definition of a pointer is a copy of a pointer or a verif_ptr_add
+    for m in _code_find(s, re.compile(r'(?<![=!<>+\-*/&|^%%])\b(%s)\s*(?::\s*usize\s*)?=(?!=)' % pn)):
+        semi = s.index(';', m.end())
+        rhs = norm_ws(s[m.end():semi])
+        if not re.match(r'^(?:0usize|(?:%s)|verif_ptr_add\((?:%s), .*\))$' % (pn, pn), rhs):
+            raise RuleError('R17: pointer %s is assigned `%s`, which is neither a modelled pointer nor p.add(n)' % (m.group(1), rhs[:60]))
+    for m in _code_find(s, re.compile(r'\b(%s)\s*(?:\+=|-=|\*=)' % pn)):
+        raise RuleError('R17: compound assignment on pointer %s' % m.group(1))
+    return s, log
+
+
 def apply_all(body, opts=None):
     opts = opts or {}
     log = []
@@ -658,6 +734,9 @@ SELFTEST = [
     (r13_strip_macro_rules,
      '{ let mut i = s; macro_rules! bh_loop_2 { ($block : block) => { loop { $block; i += 1; if i >= e { break; } } }; } macro_rules! bh_curr { () => { c [i] } } loop { f(i); } }',
      ['{ let mut i = s; loop { f(i); } }']),
+    (lambda b: ptr_model(b, 'self.0.ctx', 'Ctx', ['bh', 'r0', 'r1', 'nx']),
+     '{ let bh = self.0.ctx.as_mut_ptr(); let mut r0 = bh.add(self.0.s); let mut r1 = bh.add(self.0.e); let mut bh: *mut Ctx; let mut nx: *mut Ctx; bh = r0; loop { nx = bh.add(1); (*bh).h.update(ch); (*nx).v = (*bh).v; r1 = r1.add(1); bh = nx; if bh >= r1 { break; } } }',
+     ['{ let bh = 0usize; let mut r0 = verif_ptr_add(bh, self.0.s, self.0.ctx.len()); let mut r1 = verif_ptr_add(bh, self.0.e, self.0.ctx.len()); let mut bh: usize; let mut nx: usize; bh = r0; loop { nx = verif_ptr_add(bh, 1, self.0.ctx.len()); self.0.ctx[bh].h.update(ch); self.0.ctx[nx].v = self.0.ctx[bh].v; r1 = verif_ptr_add(r1, 1, self.0.ctx.len()); bh = nx; if bh >= r1 { break; } } }']),
     (lambda b: r_for_loops(b),
      '{ for ch in [ch; 1] { g(ch); continue; } }',
      ['let mut __it1: usize = 0; while __it1 < 1 {let ch = ch; __it1 += 1; g(ch); continue; }']),
@@ -675,6 +754,17 @@ def selftest():
             if norm_ws(e) not in norm_ws(out):
                 bad += 1
                 print('SELFTEST FAIL\n  in : %s\n  out: %s\n  exp: %s' % (src, out, e))
+    for srcbad in ('{ let bh = self.0.ctx.as_mut_ptr(); let x = *bh; }',
+                   '{ let bh = self.0.ctx.as_mut_ptr(); let q = bh.offset(1); }',
+                   '{ let bh = self.0.ctx.as_mut_ptr(); self.0.ctx[0].v = 1; }',
+                   '{ let bh = self.0.ctx.as_mut_ptr(); let mut nx: *mut Ctx; nx = other(); }',
+                   '{ let bh = self.0.ctx.as_mut_ptr(); let nx = self.1.as_mut_ptr(); }'):
+        try:
+            ptr_model(srcbad, 'self.0.ctx', 'Ctx', ['bh', 'nx'])
+            bad += 1
+            print('SELFTEST FAIL: R17 accepted %s' % srcbad)
+        except RuleError:
+            pass
     # loop ordinals are preserved by the for-rewrite
     src = '{ for i in 0..3 { while x { } } loop { for &c in s.iter() { } } }'
     out, _ = r_for_loops(src)
